@@ -464,7 +464,9 @@ class SMCSampler(MCMCSampler):
             meta.get("min_step", None) if isinstance(meta, dict) else None
         )
         iteration = state.get("iteration", 0)
-        self.history = state.get("history", SMCHistory())
+        # Copy the history: a dictionary source may be used again and the run
+        # appends to it
+        self.history = copy.deepcopy(state.get("history", SMCHistory()))
         rng_state = state.get("rng_state")
         if rng_state is not None and hasattr(self.rng, "bit_generator"):
             self.rng.bit_generator.state = rng_state
